@@ -566,9 +566,35 @@ def s5(run: Run, prog: Program):
                 "link_density must be derived from the link count just computed")
 
 
+def _edge_index_pair(sl, v, binds):
+    """Canonical (row, col) of a store index in a loop over edges `v`:
+    ('0','1') for [source, target] and ('1','0') for the mirrored cell, whatever
+    the spelling (e.tuple, e.tuple[::-1], (e.tuple[1], e.tuple[0]), e.source /
+    e.target, locals unpacked from e.tuple)."""
+    def end(x):
+        t = ast.unparse(x).replace(" ", "")
+        t = binds.get(t, t)
+        if t in (f"{v}.tuple[0]", f"{v}.source"):
+            return "0"
+        if t in (f"{v}.tuple[1]", f"{v}.target"):
+            return "1"
+        return None
+    t = ast.unparse(sl).replace(" ", "")
+    if t == f"{v}.tuple":
+        return ("0", "1")
+    if t == f"{v}.tuple[::-1]":
+        return ("1", "0")
+    if isinstance(sl, ast.Tuple) and len(sl.elts) == 2:
+        a_, b_ = end(sl.elts[0]), end(sl.elts[1])
+        if a_ and b_:
+            return (a_, b_)
+    return None
+
+
 def s6(run: Run, prog: Program):
     """Undirected link-attribute matrices are filled by mirrored stores of the
     same value."""
+    from .idioms import inline_locals
     n = 0
     for cname, mname in (("Network", "link_attribute"),
                          ("InteractingNetworks", "internal_link_attribute")):
@@ -580,23 +606,37 @@ def s6(run: Run, prog: Program):
         mirrored = False
         for l in loops:
             v = l.target.id if isinstance(l.target, ast.Name) else "e"
-            stores = [s for s in l.body if isinstance(s, ast.Assign)
-                      and isinstance(s.targets[0], ast.Subscript)]
-            for i, a in enumerate(stores):
-                for b in stores[i + 1:]:
-                    if ast.unparse(a.value) == ast.unparse(b.value) and \
-                            ast.unparse(a.targets[0].value) == \
-                            ast.unparse(b.targets[0].value):
-                        ia = ast.unparse(a.targets[0].slice).replace(" ", "")
-                        ib = ast.unparse(b.targets[0].slice).replace(" ", "")
-                        fwd = (f"{v}.tuple", f"({v}.tuple[0],{v}.tuple[1])",
-                               f"{v}.tuple[0],{v}.tuple[1]",
-                               f"{v}.source,{v}.target", f"({v}.source,{v}.target)")
-                        bwd = (f"({v}.tuple[1],{v}.tuple[0])", f"{v}.tuple[1],{v}.tuple[0]",
-                               f"{v}.tuple[::-1]", f"{v}.target,{v}.source",
-                               f"({v}.target,{v}.source)")
-                        if (ia in fwd and ib in bwd) or (ia in bwd and ib in fwd):
-                            mirrored = True
+            # locals unpacked from the edge:  a, b = e.tuple  /  a = e.source
+            binds = {}
+            vals = {}
+            for st in ast.walk(l):
+                if isinstance(st, ast.Assign) and len(st.targets) == 1:
+                    t, val = st.targets[0], st.value
+                    if isinstance(t, ast.Tuple) and len(t.elts) == 2 and \
+                            ast.unparse(val).replace(" ", "") == f"{v}.tuple" and \
+                            all(isinstance(x, ast.Name) for x in t.elts):
+                        binds[t.elts[0].id] = f"{v}.tuple[0]"
+                        binds[t.elts[1].id] = f"{v}.tuple[1]"
+                    elif isinstance(t, ast.Name):
+                        txt = ast.unparse(val).replace(" ", "")
+                        if txt in (f"{v}.tuple[0]", f"{v}.tuple[1]", f"{v}.source",
+                                   f"{v}.target"):
+                            binds[t.id] = txt
+                        else:
+                            vals[t.id] = ast.unparse(val)
+            stores = [s_ for s_ in ast.walk(l) if isinstance(s_, ast.Assign)
+                      and isinstance(s_.targets[0], ast.Subscript)]
+            for i, a_ in enumerate(stores):
+                for b_ in stores[i + 1:]:
+                    va, vb = ast.unparse(a_.value), ast.unparse(b_.value)
+                    if vals.get(va, va) != vals.get(vb, vb) or \
+                            ast.unparse(a_.targets[0].value) != \
+                            ast.unparse(b_.targets[0].value):
+                        continue
+                    pa = _edge_index_pair(a_.targets[0].slice, v, binds)
+                    pb = _edge_index_pair(b_.targets[0].slice, v, binds)
+                    if pa and pb and pa == (pb[1], pb[0]) and pa[0] != pa[1]:
+                        mirrored = True
         n += 1
         run.oblige("S6", f"{cname}.{mname}", mirrored, sample={"where": m.where})
         if not mirrored:
